@@ -13,17 +13,17 @@ import (
 
 // SpecEnv is the context a specification expression is evaluated in.
 type SpecEnv struct {
-	vars   map[string]Val
-	st     *State // heap state
-	lst    *State // state holding local cells (differs from st inside old())
-	old    *SpecEnv
-	pkg    *types.Package
-	fr     *Frame    // for resolving source-level locals (loop invariants); may be nil
-	li     *loopInfo // current loop (for idx)
-	topOld Term      // allocation watermark for fresh()
-	isOld  bool
-	ghosts map[string]string // ghost function name -> SMT function symbol of this application
-	recovered *Term          // value of recovered() (the in-flight panic value seen by a deferred function)
+	vars      map[string]Val
+	st        *State // heap state
+	lst       *State // state holding local cells (differs from st inside old())
+	old       *SpecEnv
+	pkg       *types.Package
+	fr        *Frame    // for resolving source-level locals (loop invariants); may be nil
+	li        *loopInfo // current loop (for idx)
+	topOld    Term      // allocation watermark for fresh()
+	isOld     bool
+	ghosts    map[string]string // ghost function name -> SMT function symbol of this application
+	recovered *Term             // value of recovered() (the in-flight panic value seen by a deferred function)
 }
 
 func (env *SpecEnv) with(name string, v Val) *SpecEnv {
